@@ -57,6 +57,7 @@ func runC09(w *World, r *Report) {
 	r.Rule("R-C09-3", "once-only goroutines start inside sync.Once.Do or behind a test-and-set of a package-level flag", 5)
 	r.Rule("R-C09-4", "dispatchTable is indexed only by Context.RunFromAddress", 1)
 	c09SessionInputLoops(w, r)
+	c09TransactionHandles(w, r)
 	r.Rule("R-C09-5", "a per-execution goroutine that is handed a listener its spawner opened (net.Listen) is always released: the spawner closes the listener on every path from the go statement to a return, or deferred the close before the go statement — a goroutine blocked in Accept has no other way out", 1)
 
 	type goSite struct {
